@@ -101,6 +101,7 @@ def check(run):
     run.samples = [{"per_locale_entry_of_k": {l: cases[7]["abs"]["P"]["vals"][l]["k"] for l in ("en", "fr", "de")}}]
     loadfam.replay_load(run, cases, "Trace_Fk", "Trace_Fk.cfg", build_features=("json", "quote"),
                         variant="json-quote", key_of=_key, trace_env={"ORACLE": oracle})
+    loadfam.replay_suppressed(run, cases, "Trace_Fk", "Trace_Fk.cfg", _key, trace_env={"ORACLE": oracle})
     import os
     evs = {e["case"]: e for e in vp.read_ndjson(os.path.join(run.workdir, "load", "trace.ndjson")) if e.get("ev") == "Load"}
     run.notes["l2_compile_events"] = run_l2(run, cases, evs, 8 if run.tier == "quick" else 60, oracle)
